@@ -16,8 +16,15 @@ pub fn rt_case(ctx: &mut Ctx, ls: &Layouts, compressed: bool, frame: &[u8], mode
     let op = format!("pkt.rt {}", frame_text(compressed, frame));
     let (line, d) = dec_line(ls, compressed, frame, true);
     if model_line { ctx.case(&op, &line); } else { ctx.oracle_eval("rt"); }
-    if let Dec::Pkt(p, _) = d {
-        roundtrip_oracle(ctx, ls, compressed, &p, &op);
+    match d {
+        Dec::Pkt(p, _) => roundtrip_oracle(ctx, ls, compressed, &p, &op),
+        // the frames of this property's streams carry in-domain field values only (frames the encoder can produce):
+        // a decoder that aborts on one cannot return the packet that was sent
+        Dec::Panic => {
+            let kind = ls.kinds.iter().find(|l| l["type_no"].as_u64() == frame.get(1).map(|b| *b as u64)).and_then(|l| l["kind"].as_str()).unwrap_or("?").to_string();
+            ctx.violation(&format!("c01/decode-abort/{}", kind), "decoding a frame with in-domain field values aborted instead of returning the packet", &op, "a packet", "panic");
+        },
+        _ => {},
     }
 }
 
